@@ -215,7 +215,7 @@ func (s *Solver) solve(name, query string, cover bool) SolveResult {
 	// obligation that usually takes a few seconds occasionally runs out of time. Before it is reported, it is retried with
 	// twice the budget under three other random seeds; only a goal undecided in both rounds counts as failed.
 	allowRetry := false
-	if !s.thorough && s.retry && (best.Status == "timeout" || best.Status == "unknown") {
+	if s.retry && (best.Status == "timeout" || best.Status == "unknown") {
 		s.mu.Lock()
 		if s.retries < 8 {
 			s.retries++
